@@ -11,28 +11,40 @@ TECHNIQUE = ("Lean 4 theorems over an executable model of W concurrent publisher
              "level of checkstrings, for arbitrary interleavings of atomic server operations and any W; trace validation: "
              "2-3 real MutableFileNode clients publish concurrently on the in-process grid under seeded delivery orders, "
              "every slot_readv / slot_testv_and_readv_and_writev is recorded at the server in execution order and the "
-             "model replays the same schedule (wrote flag of every write, final share versions, each publisher's "
-             "outcome); implementation-side monitors from the statement on the recorded events, the share files and "
-             "the final contents (including concurrent modify() with the retry loop)")
-LEVEL_TEXT = ("a write changes a share only if it still holds what the writer's survey (or its own previous write) saw; a "
-              "writer whose test fails or who sees a foreign version ends in UncoordinatedWriteError; if (old versions + "
-              "W)*k <= N some version ends with >= k distinct share numbers: proved in Lean for every schedule and every W. "
-              "Tied to the code by replaying real concurrent runs through the model.")
-LEVEL_NOTE = ("Lean kernel + standard axioms; the model is at checkstring level (C24 covers the byte-level test-and-set); a "
-              "writer is one publish attempt (a retry is a new writer); modify()'s retry loop is modelled as the fixed code "
-              "(fixes/C12-modify-retry-stale-version.diff: each attempt works on the best version of its fresh survey); "
-              "writers crashing midway and lease side-effects are outside")
-RULE = ("grid scenarios with 2 or 3 clients (own NodeMaker, own remote references) holding the same write cap, SDMF and "
-        "MDMF, k 1..3, N 2..10 on both sides of (W+1)*k <= N, 1..10 servers, seeded random delivery order: (a) concurrent "
-        "overwrite() — one case per publish attempt and per scenario; (b) concurrent modify() appending distinct tokens, "
-        "starting from an empty or non-empty file — one case per modify; distinct = distinct (format,k,N,servers,W, "
-        "outcome vector, final version layout); non-trivial = at least one write was refused")
+             "model replays the same schedule (wrote flag and test-vector kind of every write, final share versions, each "
+             "publisher's outcome); deterministic staged and gated races in a fixed corpus that runs first; "
+             "implementation-side monitors from the statement on the recorded events, the share files and the final "
+             "contents (including concurrent modify() with the retry loop)")
+LEVEL_TEXT = ("Proved in Lean for every schedule and every number of writers: write_only_if_unchanged and "
+              "view_is_survey_or_own_write (a write changes a share only if it still holds what the writer's own survey or "
+              "own previous write saw), new_share_write_must_not_exist (a share placed for the first time lands only on an "
+              "empty slot), surprise_reported (a failed test or a foreign version ends in UncoordinatedWriteError), "
+              "some_version_recoverable / _one_old ((old versions + W)*k <= N => some version keeps >= k distinct share "
+              "numbers). modify_convergence_counterexample is the proved negation witness for the open finding. Tied to the "
+              "code by replaying real concurrent runs through the model.")
+LEVEL_NOTE = ("Lean kernel + standard axioms; the model is at checkstring level (C24 covers the byte-level test-and-set; the "
+              "wire form of the test vectors is C47's wire_testv_guards); a writer is one publish attempt (a retry is a new "
+              "writer); the stale-pinned-version defect of modify()'s retry loop is repaired in /repo (3e3100d); that "
+              "concurrent modify() calls converge without losing a reported edit is NOT proved: it is false for the code as "
+              "it is (open finding in known_findings.d/C12.json, reproduced deterministically by the corpus); writers "
+              "crashing midway and lease side-effects are outside")
+RULE = ("fixed corpus first (VERIF_CORPUS_ONLY=1 runs only it): staged races (every writer surveys, then they publish in turn: "
+        "a lost share re-placed by both, the second writer losing every share, modify() after a competitor's publish, a "
+        "partly failing first writer on servers with two shares) and a gated overlap (the first writer's requests in flight "
+        "while the second surveys) — one per seeded change / repaired defect / open finding; then grid scenarios with 2 or "
+        "3 clients (own NodeMaker, own remote references) holding the same write cap, SDMF and MDMF, k 1..3, N 2..10 on "
+        "both sides of (W+1)*k <= N, 1..10 servers, in about half of them 1..3 share numbers lost beforehand, seeded random "
+        "delivery order: (a) concurrent overwrite() — one case per publish attempt and per scenario; (b) concurrent modify() "
+        "appending distinct tokens, starting from an empty or non-empty file — one case per modify; distinct = distinct "
+        "(format,k,N,servers,W, outcome vector, final version layout); non-trivial = at least one write was refused")
 TRUSTED = ["lean/Tahoe/Mutable/Race.lean is a hand-written abstraction of Publish + write proxies + storage test-and-set",
-           "harness/grid.py and the recording proxies of harness/props/c12.py around the real FoolscapStorageServer "
+           "harness/grid.py and the recording/gating proxies of harness/props/c12.py around the real FoolscapStorageServer "
            "(per client) and Publish.publish / ServermapUpdater._got_results (call-through)"]
 ASSUMPTIONS = ["distinct publishes produce distinct checkstrings (fresh salts / different contents)",
-               "no server fails during the race (failures are C47's subject)",
-               "the survey a publish relies on is the set of slot_readv answers its servermap update accepted"]
+               "no server fails during the race except where a corpus scenario injects it (failures are C47's subject)",
+               "the survey a publish relies on is the set of slot_readv answers its servermap update accepted",
+               "UnrecoverableFileError / NotEnoughSharesError seen by a modify() caller come from a survey or download taken "
+               "while another writer is half-way, never from a publish: they are counted, not flagged"]
 
 from props import _mutable_common as mc
 
